@@ -147,6 +147,13 @@ func (b *buffer) canaryIntact() bool {
 	return true
 }
 
+type sentinel struct {
+	pe      int
+	rule    int
+	content []byte
+	cfg     string
+}
+
 type memoEntry struct {
 	val     interface{}
 	errText string
@@ -180,6 +187,7 @@ type hist struct {
 	failedYet [NumTypes]bool
 
 	memo  map[string]memoEntry // H: outcome of a function-level parser for (entry, rule, limits, content)
+	seenP []sentinel           // function-level parses of this history that can be repeated later
 	pool  []*buffer
 	bag   []bagItem
 	store []Record
@@ -656,6 +664,9 @@ func (h *hist) opCall() {
 			h.res.Probes.Inc("too_long_rejected")
 		}
 		h.failedYet[ty] = true
+		if !h.stop && h.t.Bool(1, 2) {
+			h.recheck()
+		}
 	} else {
 		h.res.Extra.Inc("successful_calls")
 		if h.failedYet[ty] {
@@ -747,11 +758,24 @@ func (h *hist) opParse() {
 func (h *hist) parseContent(pe parserEntry, rule int, content []byte, fault int) {
 	h.memoKey = fmt.Sprintf("%s/%d/%s", pe.name, rule, configKey())
 	defer func() { h.memoKey = "" }()
+	if len(h.seenP) < 24 {
+		for k := range parserEntries {
+			if parserEntries[k].name == pe.name {
+				h.seenP = append(h.seenP, sentinel{k, rule, append([]byte(nil), content...), configKey()})
+				break
+			}
+		}
+	}
 	in, bb, nbb := h.makeInputs(content)
 	preIn := append([]byte(nil), content...)
 	out := pe.call(in, rule)
 	h.res.Extra.Add("parser_calls", 4)
 	h.res.Probes.Add("named_type_calls", 2)
+	if out[0].err != nil && !out[0].panicked {
+		if !h.stable(pe, rule, in, preIn, out) {
+			return
+		}
+	}
 	h.hash.AddString(pe.name)
 	h.hash.Add(uint64(rule)<<8 | uint64(fault))
 	h.afterParsers(pe.name, fmt.Sprintf("rule=%d", rule), out, preIn, in, []*buffer{bb, nbb}, fault)
@@ -887,6 +911,46 @@ func (h *hist) opPair() {
 	}
 	h.afterParsers(pe.name, fmt.Sprintf("second=%q", clip(preB)), out, preA, ia, []*buffer{ba1, ba2, bb1, bb2}, fa)
 	h.logf("pair %s a=%q b=%q -> val=%s err=%q", pe.name, clip(preA), clip(preB), showVal(out[0].val), out[0].errText)
+}
+
+// stable: the same failing call repeated must give the same text (an error message assembled
+// by ranging over a map does not). One repetition of all four instantiations is a cheap way to
+// name the cause; it cannot make such a run replay exactly (Go's map order has no seam), the
+// worker and the replay command handle that case by retrying (core: "flaky").
+func (h *hist) stable(pe parserEntry, rule int, in *inputs, preIn []byte, out [4]pres) bool {
+	for k := 0; k < 1; k++ {
+		again := pe.call(in, rule)
+		h.res.Extra.Add("parser_calls", 4)
+		for i := 0; i < 4; i++ {
+			if again[i].panicked || out[i].panicked {
+				continue
+			}
+			if again[i].errText != out[i].errText || again[i].val != out[i].val {
+				h.violate("D-string-bytes-disagree", pe.name+"/unstable", fmt.Sprintf("%s rule=%d on %q (%s): the same call repeated gives %q and then %q - no two instantiations can agree on a message that is not a function of the input", pe.name, rule, clip(preIn), instNames[i], out[i].errText, again[i].errText))
+				return false
+			}
+		}
+	}
+	h.res.Probes.Inc("error_text_stable_under_repetition")
+	return true
+}
+
+// recheck repeats an earlier function-level parse of this history (same entry, rule, content,
+// and the same intended configuration): whatever happened in between must not show (H).
+func (h *hist) recheck() {
+	var cands []int
+	cur := configKey()
+	for i, sn := range h.seenP {
+		if sn.cfg == cur {
+			cands = append(cands, i)
+		}
+	}
+	if len(cands) == 0 {
+		return
+	}
+	sn := h.seenP[cands[h.t.Choose(len(cands))]]
+	h.res.Probes.Inc("recheck_earlier_parse")
+	h.parseContent(parserEntries[sn.pe], sn.rule, append([]byte(nil), sn.content...), FIntact)
 }
 
 // opScribble: the caller reuses one of its buffers.
